@@ -15,6 +15,10 @@ one canonical shape before any rule looks at it (line numbers are kept for repor
       constant / name / pure expression (docstrings are kept), and logging-style calls (`print`, `logging.*`, `logger.*`,
       `log.*`, `warnings.warn`, `*.log_message`, `log_message`, also behind `FLAG and ...`) whose arguments contain no call
       other than pure builtins -- so an added log line or a `pass` never changes what a rule sees
+  K7  a local bound once in its function to a call-free operator expression (BinOp / Compare / BoolOp) and read exactly
+      once, in the statement that immediately follows (a simple statement, or the test of an `if` / the iterable of a
+      `for`, never inside a lambda or nested function), is substituted into that statement: `h = a * b; x = f(h)` is
+      read as `x = f(a * b)` -- hoisting an argument into a temporary never changes what a rule sees
 """
 from __future__ import annotations
 
@@ -167,8 +171,87 @@ class DropNoops(ast.NodeTransformer):
         return n
 
 
+_IMPURE = (ast.Call, ast.Await, ast.Yield, ast.YieldFrom, ast.NamedExpr, ast.Lambda, ast.ListComp, ast.SetComp, ast.DictComp, ast.GeneratorExp, ast.Starred, ast.JoinedStr)
+
+
+class InlineTemps(ast.NodeTransformer):
+    """K7 (see module docstring)."""
+
+    def _function(self, fn):
+        stores, loads = {}, {}
+        for n in ast.walk(fn):
+            if isinstance(n, ast.Name):
+                (stores if isinstance(n.ctx, (ast.Store, ast.Del)) else loads).setdefault(n.id, []).append(n)
+            elif isinstance(n, (ast.Global, ast.Nonlocal)):
+                for x in n.names:
+                    stores.setdefault(x, []).extend([None, None])
+            elif isinstance(n, ast.arg):
+                stores.setdefault(n.arg, []).append(None)
+        return stores, loads
+
+    def visit_FunctionDef(self, fn):
+        self.generic_visit(fn)
+        stores, loads = self._function(fn)
+        self._blocks(fn, stores, loads)
+        return fn
+    visit_AsyncFunctionDef = visit_FunctionDef
+
+    def _blocks(self, root, stores, loads):
+        for n in ast.walk(root):
+            for fld in ("body", "orelse", "finalbody"):
+                b = getattr(n, fld, None)
+                if not (isinstance(b, list) and len(b) > 1 and isinstance(b[0], ast.stmt)) or isinstance(n, ast.ClassDef):
+                    continue
+                i = 0
+                while i + 1 < len(b):
+                    s, nxt = b[i], b[i + 1]
+                    if (isinstance(s, ast.Assign) and len(s.targets) == 1 and isinstance(s.targets[0], ast.Name)
+                            and isinstance(s.value, (ast.BinOp, ast.Compare, ast.BoolOp)) and not any(isinstance(x, _IMPURE) for x in ast.walk(s.value))):
+                        v = s.targets[0].id
+                        if len(stores.get(v, [])) == 1 and len(loads.get(v, [])) == 1:
+                            use = loads[v][0]
+                            if isinstance(nxt, (ast.Assign, ast.AugAssign, ast.AnnAssign, ast.Return, ast.Expr)):
+                                scope = [nxt]
+                            elif isinstance(nxt, ast.If):
+                                scope = [nxt.test]
+                            elif isinstance(nxt, ast.For):
+                                scope = [nxt.iter]
+                            else:
+                                scope = []
+                            found = None
+                            for part in scope:
+                                stack = [(part, None, None, None)]
+                                while stack:
+                                    node, parent, field, idx = stack.pop()
+                                    if node is use:
+                                        found = (parent, field, idx)
+                                        break
+                                    if isinstance(node, (ast.Lambda, ast.FunctionDef, ast.AsyncFunctionDef)):
+                                        continue
+                                    for f, val in ast.iter_fields(node):
+                                        if isinstance(val, list):
+                                            for k, c in enumerate(val):
+                                                if isinstance(c, ast.AST):
+                                                    stack.append((c, node, f, k))
+                                        elif isinstance(val, ast.AST):
+                                            stack.append((val, node, f, None))
+                                if found:
+                                    break
+                            # the temporary must not be re-read by a loop: comprehensions in the next statement evaluate once, fine
+                            if found and found[0] is not None:
+                                parent, field, idx = found
+                                if idx is None:
+                                    setattr(parent, field, s.value)
+                                else:
+                                    getattr(parent, field)[idx] = s.value
+                                del b[i]
+                                continue
+                    i += 1
+
+
 def canonicalise(tree: ast.Module) -> ast.Module:
     tree = DropNoops().visit(tree)
+    tree = InlineTemps().visit(tree)
     tree = Canon().visit(tree)
     ast.fix_missing_locations(tree)
     return tree
